@@ -187,6 +187,8 @@ class C08RoundTripND(Harness):
                         ("CylindricalHistogram", 3), ("CylindricalSurfaceHistogram", 2)):
             yield f"jtr-{cls}", dict(cls=cls, binnings=["static"] * nb, dtype="float64")
         yield "jcol", dict(cls="collection", binnings=["static"], dtype="int64")
+        yield "jcol-mixed-flags", dict(cls="collection", binnings=["static"], dtype="int64", mixed="right_edge")
+        yield "jcol-mixed-adaptive", dict(cls="collection", binnings=["fixed"], dtype="int64", mixed="adaptive")
 
     def declare(self, cx, p):
         D = len(p["binnings"])
@@ -211,7 +213,12 @@ class C08RoundTripND(Harness):
             H1 = E.mod("physt.histogram1d").Histogram1D
             HC = E.mod("physt.histogram_collection").HistogramCollection
             a = H1(bins[0], np.asarray(x["f"][:2], dtype=p["dtype"]), name="a", axis_name="ax")
-            b = H1(bins[0], np.asarray(x["g"], dtype=p["dtype"]), name="b", axis_name="ax")
+            b_binning = bins[0]
+            if p.get("mixed") == "right_edge":
+                b_binning = make_binning(E, "static_open", x, "e0")
+            elif p.get("mixed") == "adaptive":
+                b_binning = make_binning(E, "fixed_adaptive", x, "e0")
+            b = H1(b_binning, np.asarray(x["g"], dtype=p["dtype"]), name="b", axis_name="ax")
             col = HC(a, b, name="col", title="tt")
             text = E.attempt(col.to_json)
             if isinstance(text, Raised):
@@ -220,6 +227,7 @@ class C08RoundTripND(Harness):
             if isinstance(g, Raised):
                 return {"raised": g}
             return {"collection": True, "cls": type(g).__name__, "n": len(g), "eq": bool(g == col), "members": [[full(E, m1), full(E, m2)] for m1, m2 in zip(col.histograms, g.histograms)],
+                    "member_binnings": [[binning_info(m1.binning), binning_info(m2.binning)] for m1, m2 in zip(col.histograms, g.histograms)],
                     "tree1": pj.json.loads(text), "tree2": pj.json.loads(g.to_json()), "names": [col.name, g.name, col.title, g.title]}
         if p["cls"] in ("Histogram2D", "HistogramND"):
             mod = E.mod("physt.histogram_nd")
@@ -249,6 +257,8 @@ class C08RoundTripND(Harness):
             yield "collection_equal", obs["eq"] is True
             for i, (a, b) in enumerate(obs["members"]):
                 yield f"member[{i}]", same_snapshot(cx, a, b)
+            for i, (b1, b2) in enumerate(obs["member_binnings"]):
+                yield f"member_binning[{i}]", b1["cls"] == b2["cls"] and b1["includes_right_edge"] == b2["includes_right_edge"] and b1["adaptive"] == b2["adaptive"]
             yield "collection_metadata", obs["names"][0] == obs["names"][1] and obs["names"][2] == obs["names"][3]
             yield "reserialisation_identical", trees_equal(cx, obs["tree1"], obs["tree2"])
             return
